@@ -238,9 +238,12 @@ def feats(e):
 CATS = ["a", "dev-libs", "x11_y.z+", "_a", "9", "virtual", "A-b.c", "sys-apps", "a+", "dev.lang"]
 NAMES = ["b", "foo", "foo-bar", "foo+", "g++", "foo-r1", "r1", "foo-1ab", "foo--x", "foo-", "foo-1-", "1", "9base",
          "foo-1-r", "foo-1-rx", "foo_1", "foo-v1", "foo-1.", "foo-1.x", "foo-r1-r2", "Foo_Bar", "foo-1_px",
-         "foo-1-1x1", "x-1_alphax", "a-1.2-rr1"]
+         "foo-1-1x1", "x-1_alphax", "a-1.2-rr1",
+         # a version-shaped FIRST word followed by an rN word: two-word names are valid (the "word before a
+         # revision must not look like a version" rule needs >= 3 words)
+         "7z", "7z-r1", "3d-r10", "9-r2", "1a-r3", "1-r1", "1.2-r0", "7_p1-r1", "a7-r1", "xf86-video-r128"]
 BAD_NAMES = ["foo-1", "foo-1-r1", "foo-1a", "foo-1_pre", "foo-1.2.3", "+foo", "-foo", "foo-1_p1_rc", "foo-01",
-             "foo-1A", "foo-1-r01", "foo-2-1", "foo-1b-r9"]
+             "foo-1A", "foo-1-r01", "foo-2-1", "foo-1b-r9", "x-7z-r1", "x-9-r2", "7z-7z-r1", "7z-r1-1a"]
 DIGS = ["0", "00", "01", "010", "1", "10", "2", "9", "123", "20260921", "123456789012345678901"]
 SUFS = ["alpha", "beta", "pre", "rc", "p"]
 REVS = ["", "", "", "-r0", "-r00", "-r1", "-r01", "-r123"]
@@ -307,7 +310,7 @@ def gen_atom(rng, e, force=None):
             f["use"] = True
     used = set()
     op = rng.choice(OPS)
-    cpv = rng.choice(CATS) + "/" + rng.choice(NAMES)
+    cpv = rng.choice(CATS) + "/" + (rng.choice(BAD_NAMES) if rng.random() < 0.06 else rng.choice(NAMES))
     if op:
         cpv += "-" + gen_version(rng)
         if op != "~":
@@ -389,6 +392,10 @@ POOL = [
     "a/b\n", "=a/b-1\n", "a\n/b", "a/b\n-c", "a/b[x\n]", "a/b:0\n", "a/b\n:0", "a/b\n\n", "\na/b", "=a/b-1\n-r1",
     "=a/b-1-r1\n", "a/b::r\n", "a/b-1\n", "a/b \n",
 ]
+# package-name boundary: version-shaped first word + rN word (valid with two words, invalid with a word in front)
+for _nm in ("7z", "7z-r1", "3d-r10", "9-r2", "1a-r3", "1-r1", "a7-r1", "xf86-video-r128", "x-7z-r1", "foo-7-r1", "7z-r1-r2"):
+    POOL += ["virtual/" + _nm, "=virtual/" + _nm + "-1.0", "~app-misc/" + _nm + "-2.5_p1", "app-misc/" + _nm + ":0",
+             "!<a/" + _nm + "-1-r2[x]", "=a/" + _nm + "-1*"]
 
 
 # =========================================================================== implementation driver
